@@ -36,6 +36,8 @@ def worlds(tier):
         w.W("indep2-two-pools-FIFO", w.indep(2, deadline=10 ** 6), w.P2, "FIFO", split=6, weight=10),
         w.W("indep2-1cpu-havoc-planahead", w.fixed_times(w.indep(2)), w.C1, "HAVOC", split=6, havoc={"max_delta": 2}, tasks=small(T2)),
         w.W("indep2-hetero-havoc", w.fixed_times(w.indep(2)), w.HETERO, "HAVOC", split=6, havoc={"max_delta": 2}, tasks=dem(T2, {"CPU": ["sym", 1, 2]}), weight=10),
+        w.W("indep3-request-pinned-to-an-instance-of-the-second-worker-EDF", w.fixed_times(w.indep(3)), w.PINNED, "EDF", split=5, retry_loops=True,
+            tasks={"T0": {"strategies": [{"rt": RT3, "res": {"GPU#3": 1}}]}, "T1": {"strategies": [{"rt": RT3, "res": {"GPU": 1}}]}, "T2": {"strategies": [{"rt": RT3, "res": {"GPU": 1}}]}}, weight=30),
         w.W("join3-2cpu-EDF", w.fixed_times(w.join()), w.C2, "EDF", split=6),
         w.W("fork3-symcap-EDF", w.fixed_times(w.fork()), w.CSYM, "EDF", split=6, tasks=dem(("A", "B", "C"), {"CPU": "sym"}), retry_loops=True),
     ]
@@ -49,6 +51,8 @@ def worlds(tier):
             w.W("indep3-noncontiguous-FIFO", w.fixed_times(w.indep(3)), w.MULTI, "FIFO", split=8, retry_loops=True, tasks=dem(("T0", "T1", "T2"), {"CPU": "sym"}), weight=100),
             w.W("indep3-hetero-havoc", w.fixed_times(w.indep(3)), w.HETERO, "HAVOC", split=9, havoc={"max_delta": 2, "max_unplaced": 0}, tasks=dem(("T0", "T1", "T2"), {"CPU": ["sym", 1, 2]}), weight=300),
             w.W("diamond-2cpu-EDF", w.fixed_times(w.diamond()), w.C2, "EDF", split=8, weight=100),
+            w.W("indep3-pinned-instance-symbolic-deadlines-EDF", w.indep(3, release=0), w.PINNED, "EDF", split=7, retry_loops=True,
+                tasks={"T0": {"strategies": [{"rt": RT3, "res": {"GPU#3": 1}}]}, "T1": {"strategies": [{"rt": RT3, "res": {"GPU": 1}}]}, "T2": {"strategies": [{"rt": RT3, "res": {"GPU": 1}}]}}, weight=300),
             w.W("indep2-havoc-retract-2strategies", w.fixed_times(w.indep(2)), w.C2, "HAVOC", split=8, havoc={"max_delta": 2, "retract": True}, tasks=small(T2, nstrat=2), weight=200),
         ]
     return ws
